@@ -24,6 +24,13 @@ fn main() {
             let range: f64 = it.next().and_then(|x| x.parse().ok()).unwrap_or(0.0);
             let frames: Vec<Vec<u8>> = it.next().unwrap_or("").split(',').filter(|x| !x.is_empty()).map(unhex).collect();
             transcript::history_transcript(&frames, (lat, lon), range)
+        } else if let Some(r) = line.strip_prefix("HF ") {
+            let mut it = r.split(' ');
+            let lat: f64 = it.next().and_then(|x| x.parse().ok()).unwrap_or(0.0);
+            let lon: f64 = it.next().and_then(|x| x.parse().ok()).unwrap_or(0.0);
+            let range: f64 = it.next().and_then(|x| x.parse().ok()).unwrap_or(0.0);
+            let frames: Vec<Vec<u8>> = it.next().unwrap_or("").split(',').filter(|x| !x.is_empty()).map(unhex).collect();
+            transcript::history_final(&frames, (lat, lon), range)
         } else if line == "R" {
             prev = None;
             "reset".to_string()
